@@ -10,7 +10,7 @@ from . import tlc
 from .proj import excname
 
 Q = 4
-OWNER = {'supersize': 'C04', 'vacancy': 'C15', 'interstitial': 'C15', 'substitutional': 'C15', 'translate_wrap': 'C05',
+OWNER = {'supersize': 'C04', 'rotate': 'C04', 'extract': 'C06', 'distances': 'C02', 'displacement': 'C02', 'neighbors_file': 'C03', 'roundtrip:table': 'C08', 'vacancy': 'C15', 'interstitial': 'C15', 'substitutional': 'C15', 'translate_wrap': 'C05',
          'neighbors': 'C03', 'roundtrip:atom_data': 'C08', 'roundtrip:atom_dump': 'C08', 'roundtrip:poscar': 'C08',
          'roundtrip:system_model_json': 'C10', 'roundtrip:system_model_xml': 'C10'}
 
@@ -30,12 +30,14 @@ def _canon(Pi, V, o):
     return out
 
 
-def proj(s, with_q=True):
-    P = s.atoms.pos * Q
+def proj(s, with_q=True, R=None):
+    """abstract atoms of a real system whose frame is the abstract one rotated by R (real row vector = abstract row vector @ R)"""
+    R = np.identity(3) if R is None else R
+    P = s.atoms.pos @ R.T * Q
     Pi = np.rint(P)
     if np.abs(P - Pi).max() > 1e-6:
         return 'offgrid'
-    Pi = _canon(Pi, np.rint(s.box.vects * Q), np.rint(s.box.origin * Q))
+    Pi = _canon(Pi, np.rint(s.box.vects @ R.T * Q), np.rint(s.box.origin @ R.T * Q))
     q = s.atoms.q if with_q and 'q' in s.atoms.prop() else np.zeros(s.natoms)
     return sorted((int(a), int(b), int(c), int(t), int(qq)) for (a, b, c), t, qq in zip(Pi, s.atoms.atype, q))
 
@@ -49,34 +51,80 @@ def step_key(st):
     return st['act'] + (':' + st['args']['fmt'] if st['act'] == 'roundtrip' else '')
 
 
+def owners(st):
+    key = step_key(st)
+    o = {OWNER[key]}
+    if st['act'] == 'translate_wrap':
+        o.add('C02')
+    return o
+
+
 def replay(am, h, init):
-    """returns (owner property, signature, detail) of the first failing step, or None"""
+    """returns the list of (owner property, signature, detail) of failing steps; observation failures do not stop the replay,
+    the first failure of a state-changing step does"""
+    import os
+    import tempfile
     from atomman import defect
     from DataModelDict import DataModelDict as DM
     box = am.Box(vects=np.array(init['v'], dtype=float) / Q, origin=np.array(init['o'], dtype=float) / Q)
     at = sorted(init['atoms'], key=lambda a: a['p'])
     s = am.System(atoms=am.Atoms(atype=[a['t'] for a in at], pos=np.array([a['p'] for a in at], dtype=float) / Q, q=np.array([a['q'] for a in at])),
                   box=box, pbc=[True, True, True], symbols=['Al', 'Cu', 'Ni'])
+    R = np.identity(3)                 # real row vector = abstract row vector @ R
     names = '>'.join(step_key(x) for x in h)
+    fails = []
     for k, st in enumerate(h):
         key = step_key(st)
         own = OWNER[key]
         a = st['args']
         where = 'step %d of %s' % (k, names)
+        real = lambda p: (np.array(p, dtype=float) / Q) @ R
         try:
             if st['act'] == 'supersize':
                 m = [1, 1, 1]
                 m[a['ax'] - 1] = 2
                 s = s.supersize(*m)
+            elif st['act'] == 'rotate':
+                s0 = s
+                s, T = s.rotate(np.array(a['uvw']), return_transform=True)
+                if not np.allclose(T @ T.T, np.identity(3), atol=1e-9) or np.linalg.det(T) < 0:
+                    return fails + [(own, 'rotate: returned transform is not a proper rotation in a history', where)]
+                R = R @ T.T
+                if s0.natoms * abs(round(np.linalg.det(np.array(a['uvw'])))) != s.natoms:
+                    return fails + [(own, 'rotate: atom count is not |det| times the original in a history', where)]
+            elif st['act'] == 'extract':
+                s0 = s
+                before = proj(s0, R=R)
+                s = s0.atoms_ix[s0.atoms.atype == a['t']]
+                if proj(s0, R=R) != before or s.atoms is s0.atoms:
+                    fails.append((own, 'extract: the operand changed or is shared in a history', where))
             elif st['act'] == 'vacancy':
-                s = defect.vacancy(s, pos=np.array(a['p'], dtype=float) / Q)
+                s = defect.vacancy(s, pos=real(a['p']))
             elif st['act'] == 'interstitial':
-                s = defect.interstitial(s, pos=np.array(a['p'], dtype=float) / Q, atype=a['t'], q=a['q'])
+                s = defect.interstitial(s, pos=real(a['p']), atype=a['t'], q=a['q'])
             elif st['act'] == 'substitutional':
-                s = defect.substitutional(s, pos=np.array(a['p'], dtype=float) / Q, atype=a['t'])
+                s = defect.substitutional(s, pos=real(a['p']), atype=a['t'])
             elif st['act'] == 'translate_wrap':
-                s.atoms.pos += np.array(a['d'], dtype=float) / Q
+                s0 = am.System(atoms=am.Atoms(atype=s.atoms.atype, pos=s.atoms.pos.copy()), box=s.box, pbc=s.pbc)
+                s.atoms.pos += real(a['d'])
+                try:
+                    # displacement of the translated (unwrapped and, below, wrapped) system from the one before: nearest image of d (C02)
+                    for tag, s1 in (('unwrapped', s),):
+                        dv = am.displacement(s0, s1) @ R.T * Q
+                        d2 = (dv ** 2).sum(axis=1)
+                        shift = (dv - np.array(a['d'], dtype=float)) @ np.linalg.inv(np.array(h[k - 1]['v'] if k else init['v'], dtype=float))
+                        if np.abs(d2 - st['obs']['disp2']).max() > 1e-6 or np.abs(shift - np.rint(shift)).max() > 1e-6:
+                            fails.append(('C02', 'displacement: not the nearest image of the imposed translation in a history', where + ' got %r expected |d|^2=%r' % (d2[:3].tolist(), st['obs']['disp2'])))
+                except Exception as e:
+                    fails.append(('C02', 'displacement raised %s in a history' % excname(e), where + ' ' + repr(e)[:200]))
                 s.wrap()
+                # after wrapping the direct separation is another lattice image of d; the nearest of ITS 27 candidates need not be the
+                # nearest of d's, so only the image relation and "never longer than the direct separation" are claimed here
+                dv = am.displacement(s0, s) @ R.T * Q
+                direct = (s.atoms.pos - s0.atoms.pos) @ R.T * Q
+                shift = (dv - np.array(a['d'], dtype=float)) @ np.linalg.inv(np.array(h[k - 1]['v'] if k else init['v'], dtype=float))
+                if np.abs(shift - np.rint(shift)).max() > 1e-6 or ((dv ** 2).sum(axis=1) > (direct ** 2).sum(axis=1) + 1e-6).any():
+                    fails.append(('C02', 'displacement: not a lattice image of the translation after wrapping in a history', where))
             elif st['act'] == 'roundtrip':
                 fmt = a['fmt']
                 wq = True
@@ -91,33 +139,60 @@ def replay(am, h, init):
                     text = s.dump('poscar', symbols=['Al', 'Cu', 'Ni'][:s.natypes])
                     s2 = am.load('poscar', text)
                     wq = False
+                elif fmt == 'table':
+                    text, pinfo = s.dump('table', prop_name=['atype', 'pos', 'q'], return_prop_info=True, float_format='%.13e')
+                    s2 = am.load('table', text, box=s.box, symbols=s.symbols, prop_info=pinfo)
                 else:
                     model = s.model(box_unit='angstrom', prop_unit={'atype': None, 'pos': 'scaled', 'q': None})
                     txt = model.json() if fmt.endswith('json') else model.xml()
                     s2 = am.System(model=DM(txt))
                 if not np.allclose(s2.box.vects, s.box.vects, atol=1e-9) or (fmt != 'poscar' and not np.allclose(s2.box.origin, s.box.origin, atol=1e-9)):
-                    return own, '%s: cell changed in a history' % key, where
-                got = proj(s2, wq)
+                    fails.append((own, '%s: cell changed in a history' % key, where))
+                    continue
+                got = proj(s2, wq, R)
                 if got != want(st, wq):
-                    return own, '%s: atoms changed in a history' % key, where + ' got %s expected %s' % (str(got)[:200], str(want(st, wq))[:200])
+                    fails.append((own, '%s: atoms changed in a history' % key, where + ' got %s expected %s' % (str(got)[:200], str(want(st, wq))[:200])))
                 continue
             elif st['act'] == 'neighbors':
                 nl = am.NeighborList(system=s, cutoff=np.sqrt(a['cut2']) / Q)
-                Pi = _canon(np.rint(s.atoms.pos * Q), np.rint(s.box.vects * Q), np.rint(s.box.origin * Q))
+                Pi = _canon(np.rint(s.atoms.pos @ R.T * Q), np.rint(s.box.vects @ R.T * Q), np.rint(s.box.origin @ R.T * Q))
                 got = sorted((tuple(Pi[i]), tuple(sorted(tuple(Pi[j]) for j in nl[i]))) for i in range(s.natoms))
                 cn = lambda x: tuple(_canon([x], st['v'], st['o'])[0])
                 exp = sorted((cn(e['p']), tuple(sorted(cn(x) for x in e['nb']))) for e in st['obs']['nl'])
                 if got != exp:
-                    return own, 'neighbors: neighbour sets differ from nearest-of-27 < cutoff in a history', where
+                    fails.append((own, 'neighbors: neighbour sets differ from nearest-of-27 < cutoff in a history', where))
+                fd, fn = tempfile.mkstemp(suffix='.nl', dir=tlc.WORK)
+                os.close(fd)
+                try:
+                    nl.dump(fn)
+                    nl2 = am.NeighborList(model=fn)
+                    if [list(map(int, nl2[i])) for i in range(s.natoms)] != [list(map(int, nl[i])) for i in range(s.natoms)] or list(nl2.coord) != list(nl.coord):
+                        fails.append((own, 'neighbors: list changed through a file in a history', where))
+                finally:
+                    os.unlink(fn)
+                continue
+            elif st['act'] == 'distances':
+                Pi = _canon(np.rint(s.atoms.pos @ R.T * Q), np.rint(s.box.vects @ R.T * Q), np.rint(s.box.origin @ R.T * Q))
+                cn = lambda x: tuple(_canon([x], st['v'], st['o'])[0])
+                exp = {(cn(e['p']), cn(e['q'])): e['d2'] for e in st['obs']['d']}
+                n = s.natoms
+                ii, jj = np.meshgrid(np.arange(n), np.arange(n), indexing='ij')
+                dv = s.dvect(ii.ravel(), jj.ravel()) * Q
+                dm = s.dmag(ii.ravel(), jj.ravel()) * Q
+                for i, j, v, m in zip(ii.ravel(), jj.ravel(), dv, dm):
+                    e = exp.get((tuple(Pi[i]), tuple(Pi[j])))
+                    if e is None or abs(v.dot(v) - e) > 1e-6 or abs(m * m - e) > 1e-6:
+                        fails.append((own, 'distances: periodic distance differs from the nearest of 27 in a history', where + ' pair %d,%d got %r expected %r' % (i, j, float(v.dot(v)), e)))
+                        break
                 continue
         except Exception as e:
-            return own, '%s raised %s in a history' % (key, excname(e)), where + ' ' + repr(e)[:200]
-        if not np.allclose(s.box.vects * Q, np.array(st['v'], dtype=float), atol=1e-6) or not np.allclose(s.box.origin * Q, np.array(st['o'], dtype=float), atol=1e-6):
-            return own, '%s: cell is not the expected cell in a history' % key, where
-        got = proj(s)
+            return fails + [(own, '%s raised %s in a history' % (key, excname(e)), where + ' ' + repr(e)[:200])]
+        if not np.allclose(s.box.vects @ R.T * Q, np.array(st['v'], dtype=float), atol=1e-6) or not np.allclose(s.box.origin @ R.T * Q, np.array(st['o'], dtype=float), atol=1e-6):
+            return fails + [(own, '%s: cell is not the expected cell in a history' % key, where)]
+        got = proj(s, R=R)
         if got != want(st):
-            return own, '%s: atoms are not the expected atoms in a history' % key, where + ' got %s expected %s' % (str(got)[:200], str(want(st))[:200])
-    return None
+            return fails + [(own, '%s: atoms are not the expected atoms in a history' % key, where + ' got %s expected %s' % (str(got)[:200], str(want(st))[:200]))]
+    return fails
 
 
 INITS = None
@@ -140,29 +215,52 @@ def init_of(h):
     if st['act'] == 'supersize':
         ax = st['args']['ax'] - 1
         v[ax] = [x // 2 for x in v[ax]]
+    if st['act'] == 'rotate':
+        v = np.rint(np.linalg.inv(np.array(st['args']['uvw'], dtype=float)) @ np.array(v, dtype=float)).astype(int).tolist()
     return _inits()[json.dumps(v)]
 
 
+_AM = None
+
+
+def _work(h):
+    try:
+        return replay(_AM, h, init_of(h))
+    except Exception as e:          # harness failure, reported by the parent as a machinery failure
+        return [('MACHINERY', repr(e), '')]
+
+
 def run(ctx, am, pid):
+    global _AM
+    import multiprocessing as mp
     quick = ctx.tier == 'quick'
     cfg = 'Atomman_exh.cfg'
     if quick:
         cfg = tlc.write_cfg('Atomman_exh2.cfg', open(tlc.MC + '/Atomman_exh.cfg').read().replace('UDepthMax = 3', 'UDepthMax = 2'))
     r = tlc.must_pass(tlc.run('MC_Atomman', cfg, workers=16, timeout=3000, heap='8g'), 'Atomman_exh')
     ctx.add_tlc(r)
+    # anti-vacuity: a Rotate that keeps both faces must be rejected by the abstract "same crystal" properties
+    tlc.must_fail(tlc.run('MC_Atomman', 'Atomman_neg.cfg', workers=4, timeout=600), 'Atomman_neg (rotate keeping both faces)', 'NoCoincidence')
     hists = list(r.cases)
-    rs = tlc.must_pass(tlc.run('MC_Atomman', 'Atomman_sim.cfg', workers=1, timeout=3000, simulate=6 if quick else 120, depth=9, seed=ctx.seed % 100000), 'Atomman_sim')
+    rs = tlc.must_pass(tlc.run('MC_Atomman', 'Atomman_sim.cfg', workers=1, timeout=3000, simulate=6 if quick else 200, depth=9, seed=ctx.seed % 100000), 'Atomman_sim')
     ctx.add_tlc(rs)
     hists += [h for h in rs.cases if len(h) == 8]
+    hists = [h for h in hists if any(pid in owners(st) for st in h)]
+    _AM = am
+    if len(hists) > 3000:
+        with mp.get_context('fork').Pool(16) as pool:
+            results = pool.map(_work, hists, chunksize=64)
+    else:
+        results = [_work(h) for h in hists]
     n = 0
-    for h in hists:
-        if not any(OWNER[step_key(st)] == pid for st in h):
-            continue
+    for h, fails in zip(hists, results):
         n += 1
         ctx.count()
         ctx.traces += 1
-        bad = replay(am, h, init_of(h))
-        if bad and bad[0] == pid:
-            ctx.violation(bad[1], bad[2], h)
+        for bad in fails:
+            if bad[0] == 'MACHINERY':
+                raise tlc.MachineryError('umbrella replay failed: ' + bad[1])
+            if bad[0] == pid:
+                ctx.violation(bad[1], bad[2], h)
     ctx.extra['cross_module_histories_replayed'] = n
     ctx.nontrivial_count += n
